@@ -5,6 +5,7 @@ package main
 import (
 	"bufio"
 	"bytes"
+	"context"
 	"encoding/base64"
 	"encoding/hex"
 	"encoding/json"
@@ -19,6 +20,7 @@ import (
 	"time"
 
 	"github.com/nais/wonderwall/pkg/cookie"
+	"github.com/nais/wonderwall/pkg/session"
 	"github.com/nais/wonderwall/pkg/verifx"
 )
 
@@ -388,7 +390,172 @@ func runCrypto(args []string) error {
 			return rerr
 		}
 	}
+	// a browser that logs in again WHILE holding the cookie of its previous session (both stores)
+	for _, redis := range []bool{true, false} {
+		synctest.Run(func() { rerr = cryptoRelogin(redis, win, wimpl, wobs) })
+		if rerr != nil {
+			return rerr
+		}
+	}
 	fmt.Fprintf(os.Stderr, "crypto: %d decrypt cases\n", count)
 	_ = http.StatusOK
+	return nil
+}
+
+// cryptoRelogin: data keys are per session. Browser 1 logs in (login 0), logs in again carrying that cookie under another provider
+// session id (1) and once more carrying the second cookie (2); browser 2 logs in (3) and again (4). Every ordered pair of these five
+// sessions is substituted at store level (the value stored for j put under the key of i) and i's cookie presented. Finally browser 1
+// logs in again under the provider session id of login 0 while carrying cookie 0 (5): the replaced session's old cookie must not
+// open the new entry. The data keys sealed in the six tickets are compared for identity (numbered by first appearance).
+// Model lines: dekmint (key identities) and dekswap (one per substitution) of Model/Crypt.v.
+func cryptoRelogin(redis bool, win, wimpl, wobs *bufio.Writer) error {
+	s, err := newStack(stackOpts{redis: redis, maxLifetime: time.Hour, includeIDTok: true, useSecret: true, fwdAuth: true})
+	if err != nil {
+		return err
+	}
+	defer s.close()
+	s.idp.tau = 600
+	type lg struct {
+		sid     string
+		carried int // position of the login whose cookie the callback carried; -1 none
+		res     *loginResult
+	}
+	plan := []lg{{"sid-1", -1, nil}, {"sid-2", 0, nil}, {"sid-3", 1, nil}, {"sid-4", -1, nil}, {"sid-5", 3, nil}}
+	keyIDs := map[string]int{}
+	var terms []string
+	do := func(l *lg) error {
+		carry := ""
+		if l.carried >= 0 {
+			carry = plan[l.carried].res.cookie
+		}
+		r, err := s.loginCarrying(l.sid, "idporten-loa-high", carry)
+		if err != nil {
+			return err
+		}
+		l.res = r
+		if _, ok := keyIDs[l.sid]; !ok {
+			keyIDs[l.sid] = len(keyIDs) + 1
+		}
+		c := "~"
+		if l.carried >= 0 {
+			c = fmt.Sprint(l.carried)
+		}
+		terms = append(terms, fmt.Sprintf("%d:%s", keyIDs[l.sid], c))
+		return nil
+	}
+	for i := range plan {
+		if err := do(&plan[i]); err != nil {
+			return err
+		}
+	}
+	ctx := context.Background()
+	getBlob := func(sid string) []byte {
+		if redis {
+			s.gredis.syncTime()
+			v, _ := s.mr.Get(s.sessionKey(sid))
+			return []byte(v)
+		}
+		v, err := s.gmem.inner.Read(ctx, s.sessionKey(sid))
+		if err != nil {
+			return nil
+		}
+		return append([]byte(nil), v.Ciphertext...)
+	}
+	setBlob := func(sid string, v []byte) {
+		if redis {
+			s.mr.Set(s.sessionKey(sid), string(v))
+			s.mr.SetTTL(s.sessionKey(sid), time.Hour)
+			return
+		}
+		s.gmem.inner.Write(ctx, s.sessionKey(sid), &session.EncryptedData{Ciphertext: v}, time.Hour)
+	}
+	tid := 5000
+	request := func(kind, ck string) ([]int64, bool) {
+		tid++
+		th := s.spawn(tid, reqSpec{kind: kind, cookie: ck})
+		for i := 0; i < 50; i++ {
+			s.ctl.mu.Lock()
+			done := th.done
+			s.ctl.mu.Unlock()
+			if done {
+				break
+			}
+			s.runOne(tid, 0)
+		}
+		return s.outcomeCode(th), th.panicv != nil
+	}
+	authenticated := func(kind string, o []int64) bool {
+		return (o[0] == 1 && len(o) > 1 && o[1] != -1) || o[0] == 3 || (kind == "f" && len(o) > 1 && o[0] == 2 && o[1] == 204)
+	}
+	emitSwap := func(variant, class, kind string, o []int64, panicked bool) {
+		ob, _ := json.Marshal(map[string]any{"kind": "swap", "redis": redis, "variant": variant, "class": class, "endpoint": kind, "outcome": o, "panic": panicked})
+		wobs.Write(ob)
+		wobs.WriteByte('\n')
+	}
+	swapLine := func(logins string, i, j int, ok bool) {
+		fmt.Fprintf(win, "dekswap %s %d %d\n", logins, i, j)
+		fmt.Fprintln(wimpl, map[bool]string{true: "ok", false: "fail"}[ok])
+	}
+	five := strings.Join(terms, ",")
+	for i := range plan {
+		// own cookie, own value
+		for _, kind := range []string{"p", "i"} {
+			o, p := request(kind, plan[i].res.cookie)
+			emitSwap(fmt.Sprintf("relogin-own-%d", i), "valid", kind, o, p)
+			if kind == "i" {
+				swapLine(five, i, i, authenticated(kind, o))
+			}
+		}
+		own := getBlob(plan[i].sid)
+		for j := range plan {
+			if i == j {
+				continue
+			}
+			setBlob(plan[i].sid, getBlob(plan[j].sid))
+			for _, kind := range []string{"p", "i"} {
+				o, p := request(kind, plan[i].res.cookie)
+				emitSwap(fmt.Sprintf("relogin-cookie-of-login-%d-with-stored-value-of-login-%d(carried:%d,%d)", i, j, plan[i].carried, plan[j].carried), "invalid", kind, o, p)
+				if kind == "i" {
+					swapLine(five, i, j, authenticated(kind, o))
+				}
+			}
+			setBlob(plan[i].sid, own)
+		}
+	}
+	// the same provider session id again, by the browser that holds the first cookie
+	plan = append(plan, lg{"sid-1", 0, nil})
+	if err := do(&plan[5]); err != nil {
+		return err
+	}
+	six := strings.Join(terms, ",")
+	for _, kind := range []string{"p", "i"} {
+		o, p := request(kind, plan[0].res.cookie)
+		emitSwap("relogin-same-sid-old-cookie-with-new-entry", "invalid", kind, o, p)
+		if kind == "i" {
+			swapLine(six, 0, 5, authenticated(kind, o))
+		}
+		o, p = request(kind, plan[5].res.cookie)
+		emitSwap("relogin-same-sid-new-cookie", "valid", kind, o, p)
+		if kind == "i" {
+			swapLine(six, 5, 5, authenticated(kind, o))
+		}
+	}
+	// identity of the data keys sealed in the six tickets
+	ids := map[string]int{}
+	var idl []string
+	var recs []map[string]any
+	for i, l := range plan {
+		k := string(l.res.dek)
+		if _, ok := ids[k]; !ok {
+			ids[k] = len(ids) + 1
+		}
+		idl = append(idl, fmt.Sprint(ids[k]))
+		recs = append(recs, map[string]any{"login": i, "sid": l.sid, "carried_cookie_of_login": l.carried, "data_key_id": ids[k], "data_key_bytes": len(l.res.dek)})
+	}
+	fmt.Fprintf(win, "dekmint %s\n", six)
+	fmt.Fprintln(wimpl, strings.Join(idl, " "))
+	ob, _ := json.Marshal(map[string]any{"kind": "deks", "redis": redis, "logins": recs})
+	wobs.Write(ob)
+	wobs.WriteByte('\n')
 	return nil
 }
